@@ -801,6 +801,17 @@ impl ActTask for Workflow {
 //@@ end
 //@@ extract file=acts/src/scheduler/process/task/workflow.rs in="impl ActTask for Workflow" item="fn run" name=Workflow::run props=C02,C04
 //@@ opt traitpost
+//@@ spec
+        ensures
+            //# H3-a-workflow-without-steps-completes-at-once-one-with-steps-schedules-each-first-level-step-once [C04,C03]
+            ret is Ok && final(h).queue.len() == old(h).queue.len() + n_children(old(h).links_rev, *old(h).tasks[old(h).cur].node).len()
+                && (n_children(old(h).links_rev, *old(h).tasks[old(h).cur].node).len() == 0 ==> *final(h) == set_state_spec(*old(h), old(h).cur, TaskState::Completed))
+                && (n_children(old(h).links_rev, *old(h).tasks[old(h).cur].node).len() > 0 ==> final(h).st(old(h).cur) == old(h).st(old(h).cur)),
+//@@ loop 1
+        invariant
+            //# steps-scheduled-so-far
+            h.queue.len() == old(h).queue.len() + __i1 && h.links_rev == old(h).links_rev && h.cur == old(h).cur && h.st(h.cur) == old(h).st(old(h).cur) && h.has(h.cur)
+                && __v1@ == n_children(old(h).links_rev, *old(h).tasks[old(h).cur].node),
 //@@ end
 //@@ extract file=acts/src/scheduler/process/task/workflow.rs in="impl ActTask for Workflow" item="fn review" name=Workflow::review props=C02,C03
 //@@ opt traitpost
@@ -959,6 +970,17 @@ impl ActTask for Step {
 //@@ end
 //@@ extract file=acts/src/scheduler/process/task/step.rs in="impl ActTask for Step" item="fn run" name=Step::run props=C02,C04
 //@@ opt traitpost
+//@@ spec
+        ensures
+            //# H3-a-running-step-schedules-each-of-its-children-once-and-changes-no-state [C04]
+            ret is Ok && final(h).queue.len() == old(h).queue.len() + n_children(old(h).links_rev, *old(h).tasks[old(h).cur].node).len()
+                && forall|x: Tid| #[trigger] old(h).has(x) ==> final(h).tasks[x] == old(h).tasks[x],
+//@@ loop 1
+        invariant
+            //# children-scheduled-so-far
+            h.queue.len() == old(h).queue.len() + __i1 && h.links_rev == old(h).links_rev && h.cur == old(h).cur
+                && __v1@ == n_children(old(h).links_rev, *old(h).tasks[old(h).cur].node)
+                && forall|x: Tid| #[trigger] old(h).has(x) ==> h.has(x) && h.tasks[x] == old(h).tasks[x],
 //@@ end
 //@@ extract file=acts/src/scheduler/process/task/step.rs in="impl ActTask for Step" item="fn next" name=Step::next props=C02,C03,C04,C01
 //@@ opt traitpost
